@@ -254,6 +254,11 @@ def _simple(case: Dict[str, Any]) -> Dict[str, Any]:
         return {"violations": [exception_violation(e, ident + "|construct")], "outcome": "raises"}
     from unit_scaling.parameter import has_parameter_data
 
+    if cls == "Embedding" and o.get("padding_idx") is not None and post in (None, "deepcopy", "pickle", "positional"):
+        # a freshly constructed embedding starts with a zero padding vector, like its torch.nn twin
+        row = m.weight.detach()[o["padding_idx"]]
+        if bool((row != 0).any()):
+            viol.append({"key": ident + "|fresh_padding_row_not_zero", "msg": f"options={o}: weight[{o['padding_idx']}] = {row.tolist()}"})
     for pname, prm in m.named_parameters():
         want_tag = {"weight": "norm" if cls in ("LayerNorm", "RMSNorm") else ("output" if cls == "LinearReadout" else "weight"),
                     "bias": "bias"}.get(pname)
